@@ -191,6 +191,11 @@ def run(repo, chk, tier):
     from .c07 import check_constraint_once
 
     check_constraint_once(repo, chk, ("value", "grad"), rule="G-once")
+    # the bounds a fit driver asks for are the bounds in force (shared with C16)
+    from .c16 import clause_g, clause_setbound
+
+    clause_setbound(repo, chk)
+    clause_g(repo, chk)
 
 
 # --------------------------------------------------------------------------- (a)
